@@ -482,6 +482,8 @@ class Array(Generic[T], Collection):
     size: int
 
     def __init__(self, child, size: int, contained_type: T = None):
+        if size is not None and (not isinstance(size, int) or size < 1):
+            raise ValueError(f"Array size must be a positive integer, got {size!r}")
         self.contained_type = (
             contained_type
             if (child is None or contained_type is not None)
